@@ -169,7 +169,9 @@ theorem writeBlockPart_fail (b o : Nat) (data : Bytes) (whole : Bool) (s : FS)
       rw [F.bind_ok hmod] at hne ⊢
       generalize hs2 : ({ s1 with cache := { s1.cache with blk := splice s1.cache.blk o data } } : FS) = s2 at hne ⊢
       have htag2 : s2.cache.tag = some b := by rw [← hs2]; exact htag rfl
-      rw [FBasic.writeBack_some s2 b htag2] at hne ⊢
+      rw [Fault.writeBack_tagged htag2] at hne ⊢
+      rw [untagIfErr_fst] at hne
+      rw [untagIfErr_dev, untagIfErr_vol]
       obtain ⟨hw2, _, hv2, _⟩ := devWrite_any b s2
       rcases hw2 with ⟨_, hd', hw'⟩ | ⟨hok, _, _⟩
       · rw [hd', hw', hv2, ← hs2]; exact ⟨hd, hw, hv⟩
